@@ -42,6 +42,11 @@ type Transfer struct {
 	Env      *rsyncos.Env
 	Progress progress.Printer
 
+	// Excluded reports whether the filter rules in effect on this side
+	// exclude name. Excluded entries are protected from --delete.
+	// May be nil.
+	Excluded func(name string) bool
+
 	// state
 	Conn            *rsyncwire.Conn
 	Seed            int32
